@@ -247,6 +247,43 @@ func v1Exec(c *v1Case) {
 		jsonv1.HTMLEscape(&b1, in)
 		stdjson.HTMLEscape(&b2, in)
 		step("HTMLEscape", res(true, b1.Bytes()), res(true, b2.Bytes()))
+	case "unmarshal-quoted":
+		// the `string` option: what may stand between the quotes
+		type Q struct {
+			I int     `json:",string"`
+			U uint8   `json:",string"`
+			F float64 `json:",string"`
+			G float32 `json:",string"`
+			B bool    `json:",string"`
+			S string  `json:",string"`
+			P *int    `json:",string"`
+			T *string `json:",string"`
+		}
+		pool := []string{"1", "-1", "+1", ".5", "1.", "1e2", "1E+2", "NaN", "Inf", "+Inf", "-Inf", "Infinity", "nan", "0x10", "1_0", " 1", "1 ", "", "null", "true", "false",
+			"01", "-0", "1.5", "-1.5e-3", "\"abc\"", "\"null\"", "\"\"", "abc", "256", "-129", "1e400", "3.5e38", "9223372036854775808", "0.1e1", "1e0", "TRUE", "nul", "\"\\ud800\"", "\"a\\nb\""}
+		fields := []string{"I", "U", "F", "G", "B", "S", "P", "T"}
+		var sb strings.Builder
+		sb.WriteByte('{')
+		for i, k := 0, 1+r.IntN(3); i < k; i++ {
+			if i > 0 {
+				sb.WriteByte(',')
+			}
+			q, _ := stdjson.Marshal(pool[r.IntN(len(pool))])
+			sb.WriteString(strconv.Quote(fields[r.IntN(len(fields))]) + ":" + string(q))
+		}
+		sb.WriteByte('}')
+		in := []byte(sb.String())
+		c.Input, c.Valid, c.Type = ints(in), stdjson.Valid(in), "Q (every field with the string option)"
+		var t1, t2 Q
+		e1, e2 := jsonv1.Unmarshal(in, &t1), stdjson.Unmarshal(in, &t2)
+		r1, r2 := []byte{}, []byte{}
+		if e1 == nil {
+			r1 = render2(&t1)
+		}
+		if e2 == nil {
+			r2 = render2(&t2)
+		}
+		step("Unmarshal", res(e1 == nil, r1), res(e2 == nil, r2))
 	case "marshal-iface":
 		// interface-typed fields (other than any) holding nil pointers, non-nil pointers and nil:
 		// encoding/json calls MarshalJSON / MarshalText on a nil pointer receiver
@@ -594,7 +631,7 @@ func driveV1(args map[string]string) error {
 			r := newRng(seed, uint64(3100+w))
 			for i := w; i < n; i += workers {
 				c := v1Case{ID: i + 1, Prop: "C09", Seed: []uint64{r.Uint64(), r.Uint64()}}
-				c.Kind = []string{"bytes", "bytes", "marshal", "marshal", "unmarshal", "unmarshal", "decoder", "decoder", "encoder", "unmarshal-folded", "marshal-iface"}[r.IntN(11)]
+				c.Kind = []string{"bytes", "bytes", "marshal", "marshal", "unmarshal", "unmarshal", "decoder", "decoder", "encoder", "unmarshal-folded", "marshal-iface", "unmarshal-quoted"}[r.IntN(12)]
 				if c.Kind == "bytes" || c.Kind == "decoder" {
 					cfg := randCfg(r)
 					cfg.bigNums = r.IntN(3) == 0
